@@ -181,16 +181,19 @@ def check_cli(ctx, plain, rng, scratch):
     tpf = tpf_ref.format(plain)
     mode = rng.choice(["agp2tpf", "tpf2agp", "stdin", "override", "crlf", "outfile", "multi", "multi", "out-override", "no-final-newline", "upper-ext"])
     ctx.count(f"cli:{mode}")
+    qc = ["--qc-overlaps"] if rng.random() < 0.4 else []  # its report belongs on stderr: stdout stays the assembly text
+    if qc:
+        ctx.count("cli:with-qc-overlaps")
     if mode == "agp2tpf":
         (d / "a.agp").write_text(agp)
-        r = cli_runs.run_asm_format([d / "a.agp", "-f", "TPF"])
+        r = cli_runs.run_asm_format([d / "a.agp", "-f", "TPF", *qc])
         want = tpf
     elif mode == "tpf2agp":
         (d / "a.tpf").write_text(tpf)
-        r = cli_runs.run_asm_format([d / "a.tpf"])
+        r = cli_runs.run_asm_format([d / "a.tpf", *qc])
         want = agp_ref.format(strip_tags(plain))
     elif mode == "stdin":
-        r = cli_runs.run_asm_format(["-i", "TPF", "-f", "TPF"], stdin=tpf)
+        r = cli_runs.run_asm_format(["-i", "TPF", "-f", "TPF", *qc], stdin=tpf)
         want = tpf
     elif mode == "override":
         (d / "x.agp").write_text(tpf)  # extension lies, -i overrides
@@ -285,6 +288,7 @@ def gates(c, tier):
         "cli:ok": 200,
         "cli:out-override": 20,
         "cli:upper-ext": 20,
+        "cli:with-qc-overlaps": 50,
         "cli:no-final-newline": 20,
         "corruption:no-final-newline:ref-valid:parsed": 300,
     }
